@@ -4,7 +4,7 @@
 Require Extraction.
 Require Import ExtrOcamlBasic.
 From MOC.Base Require Import RangeSet.
-From MOC.Model Require Import Qty Ops1D Query Expr Build Repr Serial ST STSerial TextValid Store MocSet Freq SetQuery Neigh Valued ValuedCheck SetEffects Mom CellsSM Sweep2D Merge2D STBuilder.
+From MOC.Model Require Import Qty Ops1D Query Expr Build Repr Serial ST STSerial TextValid Store MocSet Freq SetQuery Neigh Valued ValuedCheck SetEffects Mom CellsSM Sweep2D Merge2D STBuilder SweepLine.
 Extraction Language OCaml.
 Extraction "moc_model.ml"
   RangeSet.covb RangeSet.canonb RangeSet.canon_of
@@ -32,4 +32,5 @@ Extraction "moc_model.ml"
   CellsSM.moc_cells_o
   Sweep2D.r2d_build
   Merge2D.merge2 Merge2D.op_union Merge2D.op_inter Merge2D.op_diff
-  STBuilder.st_build.
+  STBuilder.st_build
+  SweepLine.st_sweep.
